@@ -849,6 +849,25 @@ func shpCopySeq(s []glyph.Info) []glyph.Info {
 	return out
 }
 
+// shpSharedSeq copies the sequence the way a caller may legitimately build it from one string:
+// all Text slices are cut from ONE rune array and keep the capacity up to its end
+// (`runes := []rune(s); Text: runes[i:i+1]`).  An engine that appends to a Text slice of its input
+// then writes into the text of the following glyphs and into the caller's array.
+func shpSharedSeq(s []glyph.Info) (out []glyph.Info, backing []rune) {
+	for _, g := range s {
+		backing = append(backing, g.Text...)
+	}
+	backing = append(backing, 0x2400, 0x2401) // spare capacity behind the last glyph
+	out = make([]glyph.Info, len(s))
+	off := 0
+	for i, g := range s {
+		out[i] = g
+		out[i].Text = backing[off : off+len(g.Text)]
+		off += len(g.Text)
+	}
+	return out, backing
+}
+
 func shpShowSeq(s []glyph.Info) string {
 	var sb strings.Builder
 	sb.WriteString("ok:")
@@ -886,23 +905,37 @@ func shpSortedText(s []glyph.Info) string {
 	return strings.Join(parts, ".")
 }
 
-// shpApply calls ctx.Apply on a copy of seq; a panic gives ok=false.
+// shpApply calls ctx.Apply on a copy of seq whose Text slices share one array; a panic gives ok=false.
 func shpApply(ctx *gtab.Context, seq []glyph.Info) (out []glyph.Info, ok bool) {
+	return shpApplyMode(ctx, seq, true)
+}
+
+// shpApplyMode: shared = Text slices cut from one array with spare capacity; otherwise every
+// Text is allocated separately (as sfnt.Layouter does).
+func shpApplyMode(ctx *gtab.Context, seq []glyph.Info, shared bool) (out []glyph.Info, ok bool) {
 	defer func() {
 		if r := recover(); r != nil {
 			out, ok = nil, false
 		}
 	}()
+	if shared {
+		in, _ := shpSharedSeq(seq)
+		return ctx.Apply(in), true
+	}
 	return ctx.Apply(shpCopySeq(seq)), true
 }
 
 // shpHistory runs the history on ONE context and reports every call with show; it stops
-// at the first panic.
+// at the first panic.  The inputs are built with shared Text arrays.
 func shpHistory(c *shpCase, show func(ctx *gtab.Context, in, out []glyph.Info) string) string {
+	return shpHistoryMode(c, true, show)
+}
+
+func shpHistoryMode(c *shpCase, shared bool, show func(ctx *gtab.Context, in, out []glyph.Info) string) string {
 	ctx := gtab.NewContext(c.ll, c.gd, c.lookups)
 	var parts []string
 	for _, s := range c.hist {
-		out, ok := shpApply(ctx, s)
+		out, ok := shpApplyMode(ctx, s, shared)
 		if !ok {
 			parts = append(parts, "panic")
 			break
@@ -1084,7 +1117,7 @@ func init() {
 	// G: len(ctx.stack) after every call
 	ops["shape.stack"] = func(f Fields) string {
 		c := shpDecode(f)
-		return shpHistory(c, func(ctx *gtab.Context, _, _ []glyph.Info) string { return strconv.Itoa(ctx.VerifStackLen()) })
+		return shpHistoryMode(c, false, func(ctx *gtab.Context, _, _ []glyph.Info) string { return strconv.Itoa(ctx.VerifStackLen()) })
 	}
 	// D (text conservation): the sorted runes of every output; the driver prints the sorted
 	// runes of the corresponding input
@@ -1109,13 +1142,43 @@ func init() {
 			}
 		}
 		factor := new(big.Int).Exp(big.NewInt(int64(1+g+63*g)), big.NewInt(int64(len(c.lookups))), nil)
-		return shpHistory(c, func(_ *gtab.Context, in, out []glyph.Info) string {
+		return shpHistoryMode(c, false, func(_ *gtab.Context, in, out []glyph.Info) string {
 			bound := new(big.Int).Mul(big.NewInt(int64(len(in))), factor)
 			if big.NewInt(int64(len(out))).Cmp(bound) <= 0 {
 				return "within"
 			}
 			return "exceeds"
 		})
+	}
+	// D (the engine does not write into the caller's memory): the rune array from which the Text
+	// slices of the input were cut is unchanged after every call; the driver prints "kept"
+	ops["shape.input"] = func(f Fields) string {
+		c := shpDecode(f)
+		ctx := gtab.NewContext(c.ll, c.gd, c.lookups)
+		var parts []string
+		for _, s := range c.hist {
+			in, backing := shpSharedSeq(s)
+			before := append([]rune(nil), backing...)
+			ok := func() (ok bool) {
+				defer func() {
+					if recover() != nil {
+						ok = false
+					}
+				}()
+				ctx.Apply(in)
+				return true
+			}()
+			if !ok {
+				parts = append(parts, "panic")
+				break
+			}
+			if string(before) == string(backing) {
+				parts = append(parts, "kept")
+			} else {
+				parts = append(parts, "modified")
+			}
+		}
+		return strings.Join(parts, "|")
 	}
 	// D (history independence): every call on the reused context gives what a fresh context gives
 	ops["shape.hist"] = func(f Fields) string {
@@ -1986,6 +2049,7 @@ func (g *shpGen) emit(c *shpCase, origin string) {
 	g.c.Case(Direct, "shape.hist", line, nontrivial)
 	g.c.Case(Direct, "shape.safe", line, nontrivial)
 	g.c.Case(Direct, "shape.len", line, nontrivial)
+	g.c.Case(Direct, "shape.input", line, nontrivial)
 	g.c.Case(Diagnostic, "shape.stack", line, nontrivial)
 	g.c.Case(Diagnostic, "shape.guarded", line, nontrivial)
 
@@ -2111,6 +2175,27 @@ func areaShape(c *Ctx) {
 		g.emit(sc, "filter cache family")
 	}
 	g.countMismatchFamily()
+	// over-budget rules whose nested insertions produce glyphs that start the same match again
+	// (termination: the progress guard and the EndPos of the outermost match), every run, LAST
+	// among the fixed families because a non-terminating engine ends the run after three time-outs
+	for _, n := range []int{63, 64, 65, 70, 130} {
+		for _, self := range []bool{false, true} {
+			acts := make([]gtab.SeqLookup, n)
+			for i := range acts {
+				acts[i] = gtab.SeqLookup{SequenceIndex: 0, LookupListIndex: 1}
+			}
+			if self {
+				// a self-referential rule reaching the budget: lookup 0 runs itself and the insertion
+				acts = []gtab.SeqLookup{{SequenceIndex: 0, LookupListIndex: 1}, {SequenceIndex: 1, LookupListIndex: 0}, {SequenceIndex: 0, LookupListIndex: 0}}
+			}
+			parent, tp := shpMkContext(Pick(g.r, shpTrailingFormats), []glyph.ID{fA}, acts)
+			sc := &shpCase{gd: shpFamGdef, lookups: []gtab.LookupIndex{0}, hist: [][]glyph.Info{shpFamSeq(fA), shpFamSeq(fA, fB, fA)},
+				ll: gtab.LookupList{shpFamLookup(tp, 0, 0, parent),
+					shpFamLookup(2, 0, 0, &gtab.Gsub2_1{Cov: coverage.Table{fA: 0}, Repl: [][]glyph.ID{{fA, fA}}})}}
+			c.Stat("obligation: over-budget rule whose insertions restart the match", fmt.Sprintf("%d actions self=%v", n, self))
+			g.emit(sc, "over-budget insertion family")
+		}
+	}
 	for c.evals < c.N && timeouts < maxTimeouts {
 		g.wild = false
 		g.gpos = false
